@@ -268,3 +268,8 @@ def r10_5(prog, rep):
     rets = [n for n in walk_local(gw.node) if isinstance(n, ast.Return)]
     obl(rep, gw, gw.node, "R10.5", len(rets) == 1 and unparse(rets[0].value) == f"{gw.params[0]}.stop - {gw.params[0]}.start",
         "get_slice_width = stop - start")
+
+
+from ..core import guard_rules  # noqa: E402
+
+guard_rules(globals())
